@@ -94,5 +94,17 @@ ReadOK(e) ==
      /\ e.outcome = "err" => e.post_ok /\ e.post = e.pre
      /\ e.post_ok /\ LayoutOK(t, e.post, e.cap)
      \* round trip of an untouched stream into a receiver that can hold it
-     /\ (~e.mutated /\ e.cut = -1 /\ e.outcome = "ok" /\ e.sh = e.rsh) => e.roundtrip
+     /\ (~e.mutated /\ e.cut = -1 /\ e.outcome = "ok") => e.roundtrip
+
+\* ---- wrapper and composite keys (no grammar modelled): grammar-free consequences of the same contract.
+\*   clean stream: never a panic; a receiver of the sender's shape accepts it; whenever ANY receiver accepts it, re-serialising the
+\*   receiver gives the stream back byte for byte (an equal object -- in particular not a longer stream);
+\*   every truncation point: an error, after which the receiver still serialises (to the same length when it had the sender's shape);
+\*   every 8-byte word of the first 512 bytes replaced by each dictionary value: Ok or Err, never a panic, receiver still serialises.
+CompOK(e) ==
+  /\ e.clean.outcome \in {"ok", "err"} /\ e.clean.post_ok
+  /\ (e.rel = "same" => e.clean.outcome = "ok")
+  /\ (e.clean.outcome = "ok" => e.clean.roundtrip)
+  /\ e.cuts.total > 0 /\ e.cuts.err = e.cuts.total
+  /\ e.muts.total > 0 /\ e.muts.ok + e.muts.err = e.muts.total
 =============================================================================
